@@ -412,8 +412,15 @@ def install(world):
         items = BI.iterate(W, ex, a[0])
         key = kw.get("key")
         rev = kw.get("reverse", False)
+        if any(isinstance(x, BI.ZSetSplat) for x in items):
+            raise Unsupported("sorted() of a symbolic set (its elements are not enumerated)")
         keys = [ex.call(key, [x], {}) if key else x for x in items]
-        if all(concrete(k) for k in keys):
+
+        def deep_concrete(k):
+            if isinstance(k, (tuple, list)):
+                return all(deep_concrete(x) for x in k)
+            return concrete(k)
+        if all(deep_concrete(k) for k in keys):
             order = sorted(range(len(items)), key=lambda i: keys[i], reverse=bool(rev))
             return [items[i] for i in order]
         used("sorted() = the sorted permutation (insertion by symbolic comparisons)")
